@@ -30,6 +30,7 @@ RULE = (
 )
 ASSUMPTIONS = [
     "tensors returned by earlier calls of the history are held by the caller and must keep their values during later calls (no shared output buffers)",
+    "the training flag of every sub-module is part of the state; distributions and flows are also run in training mode with their embedding net / normalisation layers frozen in evaluation mode ('mixed')",
     "module-level containers and tensors of every loaded nflows module must be unchanged by a call (no memo / scratch buffer at module scope)",
     "arguments: value (torch.equal) and _version must be unchanged, also for the base tensor of a view; model state: values of all parameters and buffers (incl. non-persistent)",
     "training mode: only BatchNorm running statistics (nflows BatchNorm and torch.nn.BatchNorm*), and ActNorm log_scale/shift/initialized while uninitialised, may change",
@@ -168,6 +169,9 @@ def snap_state(m):
     d = {}
     for n, p in list(m.named_parameters()) + list(m.named_buffers()):
         d[n] = p.detach().clone()
+    # the mode of every sub-module is state as well: a call must not switch a frozen (eval) part of a model back to training
+    for n, mod in m.named_modules():
+        d["<mode>" + n] = torch.tensor(bool(mod.training))
     return d
 
 
@@ -175,9 +179,9 @@ def allowed_in_training(m):
     ok = set()
     for mn, mod in m.named_modules():
         pre = mn + "." if mn else ""
-        if isinstance(mod, (T.BatchNorm, nn.BatchNorm1d, nn.BatchNorm2d)):
+        if isinstance(mod, (T.BatchNorm, nn.BatchNorm1d, nn.BatchNorm2d)) and mod.training:
             ok |= {pre + "running_mean", pre + "running_var", pre + "num_batches_tracked"}
-        if isinstance(mod, T.ActNorm) and not bool(mod.initialized):
+        if isinstance(mod, T.ActNorm) and mod.training and not bool(mod.initialized):
             ok |= {pre + "log_scale", pre + "shift", pre + "initialized"}
     return ok
 
@@ -185,6 +189,7 @@ def allowed_in_training(m):
 def diff_state(m, snap, allowed):
     out = []
     cur = dict(list(m.named_parameters()) + list(m.named_buffers()))
+    cur.update({"<mode>" + n: torch.tensor(bool(mod.training)) for n, mod in m.named_modules()})
     for n, c in snap.items():
         t = cur.get(n)
         if t is None or t.shape != c.shape or t.dtype != c.dtype or not torch.equal(t.detach(), c):
@@ -237,7 +242,7 @@ def explore(obj, ops_table, hist, kind, train, is_eval_repeatable=True, refs=Non
                     res = fn(*passed)
         except Exception as e:
             err = e
-        where = "history %s step %d (%s), %s arguments, %s mode" % (list(hist), step, op, kind, "train" if train else "eval")
+        where = "history %s step %d (%s), %s arguments, %s mode" % (list(hist), step, op, kind, ("mixed" if train == "mixed" else ("train" if train else "eval")))
         if err is not None and "in-place" in str(err).lower():
             out.append(("args:" + kind, "in-place write attempted on an argument", "%s: %s: %s" % (where, type(err).__name__, str(err)[:140])))
         ch = changed_tensors(mon, asnap)
@@ -265,7 +270,7 @@ def explore(obj, ops_table, hist, kind, train, is_eval_repeatable=True, refs=Non
             out.append(("global-state", "module-level state of the library modified", "%s: module-level objects changed during the call: %s" % (where, sorted(chg)[:3])))
         ds = diff_state(obj, ssnap, allowed)
         if ds:
-            out.append(("state:" + ("train" if train else "eval"), "model state modified", "%s: parameters/buffers changed: %s" % (where, ds[:4])))
+            out.append(("state:" + (("mixed" if train == "mixed" else ("train" if train else "eval"))), "model state modified", "%s: parameters/buffers changed: %s" % (where, ds[:4])))
         if err is None and not train and is_eval_repeatable:
             if op in first:
                 if not same(first[op], res):
@@ -338,7 +343,7 @@ def run_transform_case(sname, cfg, pname, seed, tier, res=None, only=None):
             res["traces"] += 1
             if len(hist) >= 2 or kind != "fresh":
                 res["nontrivial"] += 1
-            bump(res["outcomes"], "transform:%s:%s:%s" % ("train" if train else "eval", kind, "violation" if vs else "ok"))
+            bump(res["outcomes"], "transform:%s:%s:%s" % ("mixed" if train == "mixed" else ("train" if train else "eval"), kind, "violation" if vs else "ok"))
         for cell, sym, msg in vs:
             vio.append({"key": "%s|%s|%s|%s" % (sname, sig, cell, sym), "case": {"kind": "transform", "subject": sname, "cfg": cfg, "pattern": pname, "seed": seed, "train": train, "kind_arg": kind, "hist": list(hist)},
                         "msg": "%s cfg=%s pattern=%s: %s" % (sname, cfg, pname, msg)})
@@ -356,13 +361,20 @@ def run_dist_case(dname, cfg, pname, seed, tier, res=None, only=None):
     x1, x2 = d.points(cfg, 3, seed, dtype=torch.float32), d.points(cfg, 2, seed + 3, dtype=torch.float32)
     c1, c2 = d.contexts(cfg, 3, seed, dtype=torch.float32), d.contexts(cfg, 2, seed + 3, dtype=torch.float32)
     ops = [o for o in D_OPS if (o != "t2n" or d.is_flow) and (o not in ("sample", "salp") or d.can_sample)]
-    jobs = [(only["train"], only["kind_arg"], tuple(only["hist"]))] if only else [(tr, k, h) for tr in (False, True) for k in KINDS for h in histories(ops, depth)]
+    jobs = [(only["train"], only["kind_arg"], tuple(only["hist"]))] if only else [(tr, k, h) for tr in (False, True, "mixed") for k in (KINDS if tr != "mixed" else KINDS[:1]) for h in histories(ops, depth)]
     if only and not only["train"]:
         jobs = [(False, only["kind_arg"], (op,)) for op in dict.fromkeys(only["hist"])] + jobs
     refs = {}
     for train, kind, hist in jobs:
         try:
-            obj = DC.materialise(d, cfg, pname, seed, dtype=torch.float32, train=train)
+            obj = DC.materialise(d, cfg, pname, seed, dtype=torch.float32, train=bool(train))
+            if train == "mixed":
+                # a model in training mode with frozen parts (embedding net, normalisation layers) left in evaluation mode
+                frozen = [mod for n_, mod in obj.named_modules() if n_ and (n_ == "_embedding_net" or isinstance(mod, (T.BatchNorm, nn.BatchNorm1d, nn.BatchNorm2d, T.ActNorm)))]
+                if not frozen:
+                    break
+                for mod in frozen:
+                    mod.eval()
         except Exception as e:
             if res is not None:
                 bump(res["skipped"], "cannot-construct: %s" % type(e).__name__)
@@ -385,7 +397,7 @@ def run_dist_case(dname, cfg, pname, seed, tier, res=None, only=None):
             res["traces"] += 1
             if len(hist) >= 2 or kind != "fresh":
                 res["nontrivial"] += 1
-            bump(res["outcomes"], "dist:%s:%s:%s" % ("train" if train else "eval", kind, "violation" if vs else "ok"))
+            bump(res["outcomes"], "dist:%s:%s:%s" % ("mixed" if train == "mixed" else ("train" if train else "eval"), kind, "violation" if vs else "ok"))
         for cell, sym, msg in vs:
             vio.append({"key": "%s|%s|%s|%s" % (dname, sig, cell, sym), "case": {"kind": "dist", "subject": dname, "cfg": cfg, "pattern": pname, "seed": seed, "train": train, "kind_arg": kind, "hist": list(hist)},
                         "msg": "%s cfg=%s pattern=%s: %s" % (dname, cfg, pname, msg)})
